@@ -49,6 +49,12 @@ func lexSets() []lexSet {
 		bare("split1", "<", "<=>"), bare("split2", "<<", "=>"), bare("split3", "<<=", ">"), bare("split4", "<", "<", "=>"),
 		mk("star1", "**", ">"), mk("star2", "*", "*>"), mk("star3", "**>"),
 		mk("caret", ".ˆ", "?ˆ", "ˆ", ".ˆ."),
+		// operator sets whose spellings coincide when joined with a separator
+		// that is itself an operator character: {"<|", "|>"} and {"<", "|", ">"}
+		bare("sepA|", "<|", "|>"), bare("sepB|", "<", "|", ">"), mk("sepC|", "<|", "|>"), mk("sepD|", "|"),
+		bare("sepA&", "<&", "&>"), bare("sepB&", "<", "&", ">"), bare("sepA:", "<:", ":>"), bare("sepB:", "<", ":", ">"),
+		bare("sepA~", "<~", "~>"), bare("sepB~", "<", "~", ">"), bare("sepA@", "=@", "@="), bare("sepB@", "=", "@", "="),
+		bare("sepA#", "<#", "#>", "#"), bare("sepB#", "<", "#", "#", "#", ">"), bare("sepA$", "a$", "$b"), bare("sepB$", "a", "$", "b"),
 	}
 }
 
@@ -209,6 +215,12 @@ func longNumberPieces() []string {
 			out = append(out, d[:n/2]+"."+d[n/2:])
 		}
 	}
+	// long literals with line breaks inside and non-ASCII text on their last line
+	for n := 9; n <= 40; n += 3 {
+		q := []string{"`", "\"", "'"}[n%3]
+		tail := []string{"晓", "é😀", "名x", "ß"}[n%4] + strings.Repeat("z", n%5)
+		out = append(out, q+strings.Repeat("r", n)+"\n"+tail+q, q+"a\n"+strings.Repeat("晓", n/3)+"\n"+strings.Repeat("r", n)+tail+q, q+strings.Repeat("é", n)+"\r\n"+tail+q)
+	}
 	out = append(out, "\""+strings.Repeat("s", 40)+"\"", "`"+strings.Repeat("r", 35)+"`", "'"+strings.Repeat("2", 33)+"'", strings.Repeat("x", 31)+"晓"+strings.Repeat("y", 5))
 	return out
 }
@@ -217,6 +229,7 @@ var lexPiecesBase = []string{
 	"true", "false", "and", "or", "not", "in", "xor", "a", "b1", "_x", "晓", "é", "名1", "e", "x", "E",
 	"0", "1", "12", "01", "1.5", "1.5.5", "1.e5", "1e5", "1e+5", "1E-5", "1e", "1e5e6", "0x", "0x1F", "0x0F", "0xg", "0b101", "0b2", "0b", "0o17", "0o8", "1.", ".5",
 	"\"s\"", "\"a\\\"b\"", "\"\\u00e9\"", "\"\\q\"", "\"open", "\"multi\nline\"", "`raw`", "`raw\nline`", "`open", "'2020-01-01'", "'t\nwo'", "'open", "'a\"b'", "'a`b'",
+	"<|", "|>", "<|>", "<&>", "<:>", "<~>", "=@=", "<#>", "<##>", "a$b", "a$$b",
 	".", "..", "?", "?:", "?.", ":", "::", ":=", "<", "<=", "<=>", "=", "==", "===", "=>", ">", "==>", "-", "->", "--", "!", "!=", "+", "*", "/", "%", "^", "&&", "||", "&", "|", "~", "@", "#", "$", "\\", "ˆ",
 	"(", ")", "[", "]", "{", "}", ",", " ", "  ", "\n", "\t", "\r\n", " ", " ", ";", "·",
 }
